@@ -10,6 +10,9 @@
  *        R = "<subseed> <srckind> <srcarg>": a derived source with really disallowed PUs / NUMA nodes (harness/derive.h): the source is
  *            loaded with every type kept, random subsets of its PUs / NUMA nodes are made the allowed sets, it is exported to an XML
  *            buffer and that buffer is loaded with the flags and filters of the case
+ *        E = "<NAME=VALUE[,NAME=VALUE]> <srckind F|G|C> <srcarg>": the snapshot loaded with documented discovery-tuning environment
+ *            variables set (HWLOC_KNL_*, HWLOC_KEEP_NVIDIA_GPU_NUMA_NODES, HWLOC_USE_NUMA_DISTANCES, HWLOC_GROUPING*, HWLOC_CPUKINDS_*, ...):
+ *            whatever they select, the loaded topology must be well formed under the filters of the case (C01-r7)
  *   flags may contain IS_THISSYSTEM|THISSYSTEM_ALLOWED_RESOURCES (2|4) on S/X/B/R cases: the allowed sets of the running process
  *   (cgroup) are then applied to the foreign topology, so every PU / NUMA node the sandbox does not have is disallowed
  */
@@ -38,6 +41,59 @@ static char *read_file(const char *path, size_t *len) {
   b[n] = 0; fclose(f); *len = n; return b;
 }
 
+static char envnames[8][64]; static unsigned nenv;
+static void clear_case_env(void) { for (unsigned i = 0; i < nenv; i++) unsetenv(envnames[i]); nenv = 0; }
+
+/* discovery-tuning environment variables (documented in doc/hwloc.doxy "Environment Variables"): name, values, a substring of the
+ * snapshot names they are meant for (NULL = any), the object types they add / remove (targets of the type filters of the case) */
+struct envvar { const char *name; const char *values[6]; const char *only; const char *types; };
+static const struct envvar ENVVARS[] = {
+  { "HWLOC_KNL_MSCACHE_L3", {"0", "1"}, "KNL", "\x0f\x07\x0d" },          /* MemCache(15) L3(7) Group(13) */
+  { "HWLOC_KNL_NUMA_QUIRK", {"0", "1"}, "KNL", "\x0f\x07\x0d" },
+  { "HWLOC_KNL_HDH_FALLBACK", {"0", "1", "-1"}, "KNL", "\x0f\x07\x0d" },
+  { "HWLOC_KEEP_NVIDIA_GPU_NUMA_NODES", {"0", "1"}, "nvidia", "\x0d\x01" },
+  { "HWLOC_DONT_MERGE_CLUSTER_GROUPS", {"1", "0"}, NULL, "\x0d\x06\x03" },
+  { "HWLOC_USE_NUMA_DISTANCES", {"0", "1", "2", "3", "7"}, NULL, "\x0d\x01" },
+  { "HWLOC_GROUPING", {"0", "1"}, NULL, "\x0d" },
+  { "HWLOC_GROUPING_ACCURACY", {"try", "0.05", "0.5"}, NULL, "\x0d" },
+  { "HWLOC_CPUKINDS_HOMOGENEOUS", {"1", "0"}, NULL, "\x03" },
+  { "HWLOC_CPUKINDS_MAXFREQ", {"0", "1", "x"}, NULL, "\x03" },
+  { "HWLOC_CPUKINDS_RANKING", {"none", "coretype", "frequency", "forced_efficiency", "no_forced_efficiency", "coretype+frequency"}, NULL, "\x03" },
+  { "HWLOC_NO_HARDWIRED_TOPOLOGY", {"1"}, NULL, "\x01\x0d" },
+  { "HWLOC_MEMTIERS_GUESS", {"none", "default", "all"}, NULL, "\x0f" },
+  { "HWLOC_MEMTIERS", {"none", "0x1=HBM;0x2=DRAM"}, NULL, "\x0f" },
+  { "HWLOC_DEBUG_SORT_CHILDREN", {"1"}, NULL, "\x0d\x01" },
+  { "HWLOC_ALLOW", {"all"}, NULL, "\x01" },
+  { "HWLOC_X86_TOPOEXT_NUMANODES", {"1"}, NULL, "\x0d\x01\x02" },
+  { "HWLOC_VIRTUAL_LINUX_OSDEV", {"1"}, NULL, "\x12\x10" },
+};
+#define NENVVARS (sizeof ENVVARS / sizeof *ENVVARS)
+static unsigned long st_env_cases, st_env_targeted, st_env_dedicated;
+/* builds "<NAME=VALUE[,...]>" for the source and a filter assignment that (60 %) names the types the variables touch */
+static void gen_env_case(const struct src *src, char *spec, size_t cap, char *filters) {
+  const char *b = strrchr(src->path, '/'); b = b ? b + 1 : src->path;
+  unsigned nv = 1 + (rng_chance(30) ? 1 : 0), off = 0; const struct envvar *chosen[2] = {NULL, NULL};
+  for (unsigned k = 0; k < nv; k++) {
+    const struct envvar *v = NULL;
+    /* dedicated variables first when the snapshot has some */
+    unsigned nd = 0; for (unsigned i = 0; i < NENVVARS; i++) if (ENVVARS[i].only && strstr(b, ENVVARS[i].only)) nd++;
+    if (nd && rng_chance(75)) { unsigned j = rng_below(nd); for (unsigned i = 0; i < NENVVARS; i++) if (ENVVARS[i].only && strstr(b, ENVVARS[i].only) && !j--) { v = &ENVVARS[i]; break; } st_env_dedicated++; }
+    while (!v) { const struct envvar *c = &ENVVARS[rng_below(NENVVARS)]; if (!c->only || strstr(b, c->only) || rng_chance(10)) v = c; }
+    if (k && chosen[0] == v) break;
+    chosen[k] = v;
+    unsigned nval = 0; while (nval < 6 && v->values[nval]) nval++;
+    off += (unsigned) snprintf(spec + off, cap - off, "%s%s=%s", k ? "," : "", v->name, v->values[rng_below(nval)]);
+  }
+  if (rng_chance(60)) {
+    memset(filters, '-', 20); filters[20] = 0;
+    for (unsigned k = 0; k < 2; k++) if (chosen[k]) for (const char *ty = chosen[k]->types; *ty; ty++)
+      if (rng_chance(55)) filters[(unsigned char) *ty] = "1120"[rng_below(4)];      /* KEEP_NONE twice as likely */
+    if (rng_chance(30)) filters[rng_below(20)] = (char) ('0' + rng_below(4));
+    st_env_targeted++;
+  }
+  st_env_cases++;
+}
+
 /* returns 0 when loaded and dumped, 1 when set/load failed cleanly */
 static int run_case(const char *caseid, char kind, unsigned long flags, const char *filters, const char *arg) {
   hwloc_topology_t t;
@@ -58,11 +114,27 @@ static int run_case(const char *caseid, char kind, unsigned long flags, const ch
   case 'F': setenv("HWLOC_FSROOT", arg, 1); setenv("HWLOC_COMPONENTS", "linux,stop", 1); setenv("HWLOC_DUMPED_HWDATA_DIR", "/var/run/hwloc", 1); break;
   case 'G': setenv("HWLOC_FSROOT", arg, 1); setenv("HWLOC_COMPONENTS", "linux,pci,stop", 1); setenv("HWLOC_DUMPED_HWDATA_DIR", "/var/run/hwloc", 1); break;
   case 'C': setenv("HWLOC_CPUID_PATH", arg, 1); setenv("HWLOC_COMPONENTS", "x86,stop", 1); break;
+  case 'E': {
+    char spec[400], k2 = 0; int off = 0;
+    if (sscanf(arg, "%399s %c %n", spec, &k2, &off) < 2 || !off) { err = -1; break; }
+    nenv = 0;
+    for (char *sv = NULL, *tk = strtok_r(spec, ",", &sv); tk && nenv < 8; tk = strtok_r(NULL, ",", &sv)) {
+      char *eq = strchr(tk, '='); if (!eq || strncmp(tk, "HWLOC_", 6)) { err = -1; break; }
+      *eq = 0; snprintf(envnames[nenv], sizeof envnames[nenv], "%s", tk); setenv(tk, eq + 1, 1); nenv++;
+    }
+    const char *a2 = arg + off;
+    if (k2 == 'F') { setenv("HWLOC_FSROOT", a2, 1); setenv("HWLOC_COMPONENTS", "linux,stop", 1); setenv("HWLOC_DUMPED_HWDATA_DIR", "/var/run/hwloc", 1); }
+    else if (k2 == 'G') { setenv("HWLOC_FSROOT", a2, 1); setenv("HWLOC_COMPONENTS", "linux,pci,stop", 1); setenv("HWLOC_DUMPED_HWDATA_DIR", "/var/run/hwloc", 1); }
+    else if (k2 == 'C') { setenv("HWLOC_CPUID_PATH", a2, 1); setenv("HWLOC_COMPONENTS", "x86,stop", 1); }
+    else err = -1;
+    break;
+  }
   default: err = -1;
   }
-  if (err < 0) { hwloc_topology_destroy(t); free(buf); return 1; }
+  if (err < 0) { hwloc_topology_destroy(t); free(buf); clear_case_env(); return 1; }
   err = hwloc_topology_load(t);
   free(buf);
+  clear_case_env();
   if (err < 0) { hwloc_topology_destroy(t); return 1; }
   dump_topology(fdump, t, caseid);
   fflush(fdump);
@@ -177,7 +249,17 @@ int main(int argc, char **argv) {
       if (kind == 'X' && rng_chance(50)) kind = 'B';
       if (kind == 'F' && rng_chance(30)) kind = 'G';
       strcpy(arg, s->path);
-    } else if (w < 65 && !(only && !strcmp(only, "S"))) {
+    } else if (nsrcs && w < 50 && !(only && !strcmp(only, "S"))) {
+      /* a Linux / x86 snapshot under discovery-tuning environment variables */
+      struct src *s = NULL;
+      for (unsigned tries = 0; tries < 50 && !s; tries++) { struct src *c = rng_chance(35) ? pick_src() : &srcs[rng_below(nsrcs)]; if (c->kind == 'F' || c->kind == 'C') s = c; }
+      if (!s) { kind = 'S'; gen_synthetic(arg, sizeof arg); }
+      else {
+        char spec[400]; gen_env_case(s, spec, sizeof spec, filters);
+        char k2 = s->kind; if (k2 == 'F' && rng_chance(30)) k2 = 'G';
+        kind = 'E'; snprintf(arg, sizeof arg, "%s %c %s", spec, k2, s->path);
+      }
+    } else if (w < 70 && !(only && !strcmp(only, "S"))) {
       /* derived source with disallowed resources: from a synthetic string (60 %) or from a bundled XML file / snapshot */
       kind = 'R';
       if (!nsrcs || rng_chance(60)) { char syn[1100]; gen_synthetic(syn, sizeof syn); snprintf(arg, sizeof arg, "%u S %s", rng_below(1000000), syn); }
@@ -189,6 +271,7 @@ int main(int argc, char **argv) {
     if (run_case(id, kind, flags, filters, arg)) failed++; else loaded++;
   }
   fprintf(fplan, "# loaded %lu failed %lu\n", loaded, failed);
+  fprintf(fplan, "# envcases %lu targeted_filters %lu dedicated_variable %lu\n", st_env_cases, st_env_targeted, st_env_dedicated);
   fprintf(fplan, "# derived made %lu with_memcache %lu two_level_memcache %lu dropped_pu %lu dropped_node %lu allow_refused %lu v2 %lu retyped_to_group %lu retyped_cpuless %lu misc_inserted %lu\n",
           drv_made, drv_with_memcache, drv_two_level_memcache, drv_dropped_pu, drv_dropped_node, drv_allow_refused, drv_v2, drv_retyped, drv_retyped_cpuless, drv_misc);
   fclose(fplan); fclose(fdump);
